@@ -1,6 +1,6 @@
 """Claim texts for MANIFEST.json (tools/gen_manifest.py writes the file)."""
 
-REPO_FIX_COMMITS = ["d6b93bf (C15)", "bf9879b (C18)", "00db926 (C17)", "69cf7c1 (C14)", "6437988 (C11)", "98f4235 (C11)", "997be27 (C12)", "fbe6454 (C02)", "17a33b1 (C01)", "bcface1 (C01)", "7c09e08 (C08)", "d75f5c1 (C05)", "66c726b (C05,C09)", "cd30f54 (C06)", "a1bd023 (C06)", "41fa818 (C07)", "9927cea (C07)", "4b8e704 (C07)", "3f4bb24 (C19)", "303540a (C20)", "57b784c (C09)"]
+REPO_FIX_COMMITS = ["d6b93bf (C15)", "bf9879b (C18)", "00db926 (C17)", "69cf7c1 (C14)", "6437988 (C11)", "98f4235 (C11)", "997be27 (C12)", "fbe6454 (C02)", "17a33b1 (C01)", "bcface1 (C01)", "7c09e08 (C08)", "d75f5c1 (C05)", "66c726b (C05,C09)", "cd30f54 (C06)", "a1bd023 (C06)", "41fa818 (C07)", "9927cea (C07)", "4b8e704 (C07)", "3f4bb24 (C19)", "303540a (C20)", "57b784c (C09)", "4002539 (C03)", "4635a16 (C04,C05)"]
 
 _PENDING = "checker for this property is not built yet in this round (see DESIGN.md section 3 for the planned rule)"
 
@@ -213,4 +213,32 @@ CLAIMS.update({
         note="Not decided: equality of continued values; crash timing, OS buffering."),
 })
 
-NOT_APPLICABLE = {p: _PENDING for p in ["C03", "C04"]}
+CLAIMS.update({
+    "C03": dict(
+        technique="template extraction from the XMILE->Python generator + token-order flattening argument + pairwise precedence comparison decided by CPython's parser + hole-safety of built-in templates and plugin-built IR literals",
+        design_ref="DESIGN.md 2.4, 3/C03, Appendix A.1",
+        text="Decides for every program of the supported grammar: every operator spelling the PEG grammar can emit has a py.operators "
+             "entry that maps to the reference Python token as exactly 'L <op> R' (operands in source order, no parentheses), so the "
+             "emitted text is the source token sequence with operators renamed whatever the right-nested IR looks like; for all 148 "
+             "ordered operator pairs Python's grouping of the renamed tokens is compared with XMILE's precedence/associativity table "
+             "(one class of mismatch, chained comparisons, is a known finding); every IR operator literal built by the stock/"
+             "non-negative plugins keeps its grouping when flattened; every argument hole of every extractable built-in (77) is "
+             "safe against a flat infix argument of each operator class and every built-in rendering is self-delimiting as an operand; "
+             "the 17 deterministic numeric built-ins match reference shapes; unknown operators raise (unknown functions do not: known "
+             "finding); every identifier/label/function/entity/flow/connect name stored into the IR goes through sanitizeName.",
+        note="Trusted: CPython's parser; the XMILE 1.0 operator table encoded in the checker. Not decided: sanitizeName as a function "
+             "over strings; stochastic distributions; array built-ins and array expansion; the handful of built-ins the extractor "
+             "cannot evaluate (listed per run in the evidence)."),
+    "C04": dict(
+        technique="normal-form match of the stock IR literal and of the rendered stock text + stdlib re.sub applied to extracted regex constants and templates + sibling comparison with the DSL integrator and lookup + time-kind rule on the generated class",
+        design_ref="DESIGN.md 3/C04",
+        text="Decides: the stock IR literal is IF(TIME<=STARTTIME, init, PREVIOUS(self)+DT*PREVIOUS(net)) with the four net-flow forms; "
+             "previous() - two regex rewrites whose constants are read from the source - moves every memo lookup of the extracted "
+             "identifier template to t-self.dt; the rendered stock equals the DSL stock's normal form; non-negative flows are wrapped in "
+             "max(0, .); LERP and Model._lookup have the same clamps and linear interpolation; the generated class takes dt/start/stop "
+             "from their own spec fields and keys its memo on a rounded time (the 'any dt' clause, repaired).",
+        note="Not decided: trajectories; Stella compatibility of built-ins; arrayed stocks. The Jinja template is parsed method by "
+             "method after tag stripping; __init__ is read as text for the three run-spec lines."),
+})
+
+NOT_APPLICABLE = {}
